@@ -40,7 +40,9 @@ class C17(FsProp):
         return [{"module": "EditFs.tla", "cfg": "MC_EditFs.cfg", "coverage": True, "workers": 2,
                  "what": "edit FS program (fixed variant) x Crash/Fail/TornWrite at every point x encodable or not"},
                 {"module": "EditFs.tla", "cfg": "MC_EditFs_code.cfg", "expect": "fail", "workers": 2,
-                 "what": "remove-then-write (pinned commit) must violate NeverLost"}]
+                 "what": "remove-then-write (pinned commit) must violate NeverLost"},
+                {"module": "EditFs.tla", "cfg": "MC_EditFs_notrunc.cfg", "expect": "fail", "workers": 2,
+                 "what": "temporary file opened without truncation: unsafe after an interrupted edit (Restart)"}]
 
     def cases(self, tier, rng):
         cl = ["C17.safe", "C17.error", "C17.prefix", "X17.fsmodel"]
@@ -143,8 +145,15 @@ class C18(FsProp):
                                         "version": v, "P": B, "tree": t, "progress": (len(out) % 3),
                                         "align": v == 1 and len(out) % 2 == 0, "clauses": ["C18.create"]})
                 for tex in (False, True):
-                    out.append({"cmd": "rename", "target_exists": tex, "version": v, "P": B, "tree": t,
-                                "clauses": ["C18.rename"]})
+                    for cwdm in ("metadir", "elsewhere"):
+                        for decoy in (False, True):
+                            if decoy and cwdm != "elsewhere":
+                                continue
+                            out.append({"cmd": "rename", "target_exists": tex, "cwd_mode": cwdm, "decoy_in_cwd": decoy,
+                                        "version": v, "P": B, "tree": t, "clauses": ["C18.rename"]})
+        for k, c in enumerate(out):
+            if c["cmd"] != "rename":
+                c["cwd_mode"] = "elsewhere" if k % 3 == 0 else "metadir"
         if tier != "thorough":
             out = [c for k, c in enumerate(out) if c["cmd"] in ("rename",) or k % 2 == 0]
         return out
@@ -152,7 +161,7 @@ class C18(FsProp):
     def nontrivial(self, case):
         return (case["cmd"], case.get("spelling"), case["version"], case["tree"]["name"], str(case.get("damage")),
                 case.get("outform"), case.get("preexisting"), case.get("target_exists"), str(case.get("pre")),
-                case.get("mver"), case.get("path_mode"))
+                case.get("mver"), case.get("path_mode"), case.get("cwd_mode"), case.get("decoy_in_cwd"))
 
     def signature(self, case, rec, clause):
         return "%s/%s" % (clause, case["cmd"] if case else "?")
